@@ -331,3 +331,22 @@ impl Default for FreeSpaceManager {
         Self::new()
     }
 }
+
+#[cfg(feoxdb_verif)]
+impl FreeSpaceManager {
+    /// Free runs as (start, length) in ascending start order.
+    pub fn verif_runs(&self) -> Vec<(u64, u64)> {
+        self.by_start
+            .values()
+            .map(|space| (space.start, space.size))
+            .collect()
+    }
+
+    /// The same runs as the size-ordered tree sees them.
+    pub fn verif_runs_by_size(&self) -> Vec<(u64, u64)> {
+        self.by_size
+            .values()
+            .map(|space| (space.start, space.size))
+            .collect()
+    }
+}
